@@ -1,0 +1,138 @@
+//go:build verif
+
+package sessiontracker
+
+// Contracts for the verification tooling (build tag "verif"). Comment-only: never compiled into the daemon.
+// See /verif/DESIGN.md section 4 ("Tracker contracts"). S = o.sessIDsToUsers.m, P = o.pidsToRULs.m.
+
+//@ pred SameSubjects(a, b) := (forall k string :: has(a, k) <==> has(b, k)) && (forall k string :: has(b, k) ==> a[k] == b[k])
+//@ pred Outcome(ae) := ite(ae.Result == "success", "succeeded", "failed")
+//@ pred ExtraStr(m, k, v) := has(m, k) && dyn(m[k]) == typeid("string") && unbox_string(m[k]) == v
+
+// EvIs: the heap event e renders audit event ae with the identity of the login event L (C14, identity clause of C01).
+//@ pred EvIs(e, L, ae) := e != nil && e.Type == "UserAction" && e.Component == "auditd" && e.LoggedAt == ae.Timestamp
+//@   | && e.Metadata.AuditID == ae.Session && e.Outcome == Outcome(ae)
+//@   | && e.Source.Type == L.Source.Type && e.Source.Value == L.Source.Value && e.Source.Extra == L.Source.Extra && e.Target == L.Target
+//@   | && e.Subjects != nil && e.Subjects != L.Subjects && SameSubjects(e.Subjects, L.Subjects)
+//@   | && e.Metadata.Extra != nil && ExtraStr(e.Metadata.Extra, "action", ae.Summary.Action) && ExtraStr(e.Metadata.Extra, "how", ae.Summary.How)
+//@   | && has(e.Metadata.Extra, "object") && unbox(e.Metadata.Extra["object"], "String", "aucoalesce.Object.Primary") == ae.Summary.Object.Primary
+//@   | && unbox(e.Metadata.Extra["object"], "String", "aucoalesce.Object.Type") == ae.Summary.Object.Type
+//@   | && unbox(e.Metadata.Extra["object"], "String", "aucoalesce.Object.Secondary") == ae.Summary.Object.Secondary
+//@   | && (has(e.Metadata.Extra, "process_args") <==> len(ae.Process.Args) > 0)
+//@   | && (has(e.Metadata.Extra, "process_args") ==> unbox(e.Metadata.Extra["process_args"], "Int", "<>string.#id") == ae.Process.Args.id)
+
+// Ghost provenance of event objects: which audit event an AuditEvent renders and whose identity it carries.
+// toAuditEvent sets both; EventWriter.Write copies them into the ghost trace as out[i].src / out[i].by.
+//@ ghost g_evsrc : (Array Int Int)
+//@ ghost g_evby : (Array Int Int)
+
+//@ func (*user).toAuditEvent
+//@   requires o != nil && ae != nil && o.login.Source != nil
+//@   ghost_exit g_evsrc := upd(g_evsrc, result, ae)
+//@   ghost_exit g_evby := upd(g_evby, result, o.login.Source)
+//@   modifies g_evsrc, g_evby
+//@   allocates "F!auditevent.AuditEvent!*", "M!*"
+//@   ensures[fresh] fresh(result)
+//@   ensures[render] EvIs(result, o.login.Source, ae)
+//@   ensures[ghost] g_evsrc[result] == ae && g_evby[result] == o.login.Source
+//@   loop toAuditEvent#1 invariant[copy] subjectsCopy != nil && subjectsCopy != o.login.Source.Subjects && !old(alloc(subjectsCopy))
+//@   |   && (forall k string :: has(subjectsCopy, k) <==> visited[k])
+//@   |   && (forall k string :: visited[k] ==> has(o.login.Source.Subjects, k) && subjectsCopy[k] == o.login.Source.Subjects[k])
+//@   loop toAuditEvent#1 invariant[frame] kept_objs("M!*", subjectsCopy) && kept("F!*") && kept("S!*")
+
+// Rendered(i, L, ae): the i-th output entry is the rendering of audit event ae with the identity of login event L.
+//@ pred Rendered(i, L, ae) := out[i].src == ae && out[i].by == L && out[i].Type == "UserAction" && out[i].Metadata.AuditID == ae.Session
+
+//@ func (*user).writeAndClearCache
+//@   requires o != nil && writer != nil && (len(o.cached) > 0 ==> o.login.Source != nil)
+//@   requires forall j int :: 0 <= j && j < len(o.cached) ==> o.cached[j] != nil
+//@   modifies o.cached, out, g_evsrc, g_evby
+//@   allocates "F!auditevent.AuditEvent!*", "M!*"
+//@   assert_at Write[render] EvIs(e, o.login.Source, o.cached[i]) && g_evsrc[e] == o.cached[i] && g_evby[e] == o.login.Source
+//@   ensures[ok] result == nil ==> (o.cached == nil || o.cached == old(o.cached)) && len(o.cached) == 0 && len(out) == old(len(out)) + old(len(o.cached))
+//@   ensures[okall] result == nil ==> (forall i int :: old(len(out)) <= i && i < len(out) ==> Rendered(i, o.login.Source, old(o.cached[i - old(len(out))])))
+//@   ensures[err] result != nil ==> wfailed && len(out) >= old(len(out)) && len(out) < old(len(out)) + old(len(o.cached)) && o.cached == old(o.cached)
+//@   ensures[errall] result != nil ==> (forall i int :: old(len(out)) <= i && i < len(out) ==> Rendered(i, o.login.Source, old(o.cached[i - old(len(out))])))
+//@   ensures[prefix] outprefix_kept()
+//@   loop writeAndClearCache#1 invariant[idx] 0 - 1 <= rangeindex && rangeindex < len(o.cached) && len(out) == old(len(out)) + rangeindex + 1
+//@   loop writeAndClearCache#1 invariant[pre] o.login.Source != nil && (forall j int :: 0 <= j && j < len(o.cached) ==> o.cached[j] != nil)
+//@   loop writeAndClearCache#1 invariant[done] forall i int :: old(len(out)) <= i && i < len(out) ==> Rendered(i, o.login.Source, o.cached[i - old(len(out))])
+//@   loop writeAndClearCache#1 invariant[frame] kept("F!sessiontracker.user!*") && kept_objs("F!auditevent.AuditEvent!*") && kept_objs("M!*") && kept("F!aucoalesce.Event!*") && kept("S!*") && outprefix_kept()
+
+// ---------------------------------------------------------------------------------------------
+// The correlator's data-structure invariant (DESIGN.md section 4, I0-I8).
+//   g_opened[sid] : PID in the LOGIN record that opened session sid (set when the record is processed)
+//   g_disp[sid]   : a credential-disposal record of the tracked session sid has been processed
+//@ ghost g_opened : (Array String Int)
+//@ ghost g_disp : (Array String Bool)
+
+//@ pred SMap(o) := o.sessIDsToUsers.m
+//@ pred PMap(o) := o.pidsToRULs.m
+//@ pred UserOK(o, sid, u) := u != nil && alloc(u) && (u.cached.id == 0 || alloc(u.cached.id)) && u.srcPID == g_opened[sid]
+//@   | && (u.hasRUL ==> u.login.PID == u.srcPID && u.login.Source != nil && alloc(u.login.Source) && len(u.cached) == 0)
+//@   | && (forall j int :: 0 <= j && j < len(u.cached) ==> u.cached[j] != nil && alloc(u.cached[j]) && u.cached[j].Session == sid)
+//@   | && (g_disp[sid] ==> !u.hasRUL)
+//@   | && (!u.hasRUL ==> !has(PMap(o), u.srcPID))
+//@ pred TrackerInv(o) := o != nil && o.sessIDsToUsers != nil && o.pidsToRULs != nil && SMap(o) != nil && PMap(o) != nil
+//@   | && o.eventWriter != nil && o.l != nil
+//@   | && alloc(o) && alloc(o.sessIDsToUsers) && alloc(o.pidsToRULs) && alloc(SMap(o)) && alloc(PMap(o))
+//@   | && (forall sid string :: has(SMap(o), sid) ==> UserOK(o, sid, SMap(o)[sid]))
+//@   | && (forall a string, b string :: has(SMap(o), a) && has(SMap(o), b) && a != b ==> SMap(o)[a] != SMap(o)[b])
+//@   | && (forall pid int :: has(PMap(o), pid) ==> PMap(o)[pid].PID == pid && PMap(o)[pid].Source != nil && alloc(PMap(o)[pid].Source) && pid > 0)
+
+//@ pred Matched(o, rul, sid) := old(has(SMap(o), sid)) && old(SMap(o)[sid].srcPID) == rul.PID
+//@ pred ValidRUL(rul) := rul.Source != nil && rul.PID > 0 && rul.CredUserID != ""
+
+//@ func (*sessionTracker).RemoteLogin
+//@   requires TrackerInv(o)
+//@   ensures[inv] result == nil ==> TrackerInv(o)
+//@   ensures[invalid] !ValidRUL(rul) ==> result != nil && len(out) == old(len(out)) && kept_objs_old("F!*") && kept_old("M!*")
+//@   ensures[err] result != nil ==> !ValidRUL(rul) || wfailed
+//@   ensures[c01] forall i int :: old(len(out)) <= i && i < len(out) ==> out[i].by == rul.Source && out[i].Type == "UserAction"
+//@   |   && g_opened[out[i].Metadata.AuditID] == rul.PID
+//@   ensures[bind] result == nil ==> (forall sid string :: Matched(o, rul, sid) && (forall t string :: Matched(o, rul, t) ==> t == sid) ==>
+//@   |   has(SMap(o), sid) && SMap(o)[sid] == old(SMap(o)[sid]) && SMap(o)[sid].hasRUL && SMap(o)[sid].login == rul && len(SMap(o)[sid].cached) == 0
+//@   |   && len(out) == old(len(out)) + old(len(SMap(o)[sid].cached))
+//@   |   && (forall i int :: old(len(out)) <= i && i < len(out) ==> Rendered(i, rul.Source, old(SMap(o)[sid].cached[i - old(len(out))]))))
+//@   ensures[park] result == nil && (forall sid string :: !Matched(o, rul, sid)) ==> len(out) == old(len(out)) && has(PMap(o), rul.PID) && PMap(o)[rul.PID] == rul
+//@   |   && kept_old("F!sessiontracker.user!*") && kept_old("M!map<string;^sessiontracker.user>!*")
+//@   ensures[prefix] outprefix_kept()
+//@   loop Iterate#1 invariant[nf] !found && writeErr == nil && len(out) == old(len(out))
+//@   loop Iterate#1 invariant[vis] forall k string :: visited[k] ==> has(SMap(o), k) && SMap(o)[k].srcPID != rul.PID
+//@   loop Iterate#1 invariant[frame] kept("F!*") && kept("M!*") && kept("S!*") && kept("G!*") && kept("A") && kept("I!*")
+
+//@ pred NoSess(ev) := ev.Session == "" || ev.Session == "unset"
+//@ pred Opens(o, ev) := !NoSess(ev) && ev.Type == auparse.AUDIT_LOGIN && !has(SMap(o), ev.Session) && atoiok(ev.Process.PID)
+//@ pred Nothing(o) := len(out) == old(len(out)) && kept_objs_old("F!*") && kept_old("M!*") && kept_old("S!*")
+
+//@ func (*sessionTracker).AuditdEvent
+//@   requires TrackerInv(o) && event != nil && alloc(event)
+//@   ghost g_disp := ite(!NoSess(event) && has(SMap(o), event.Session) && event.Type == auparse.AUDIT_CRED_DISP, upd(g_disp, event.Session, true),
+//@   |                 ite(Opens(o, event), upd(g_disp, event.Session, false), g_disp))
+//@   ghost g_opened := ite(Opens(o, event), upd(g_opened, event.Session, atoival(event.Process.PID)), g_opened)
+//@   ensures[inv] result == nil ==> TrackerInv(o)
+//@   ensures[nosess] NoSess(event) ==> result == nil && Nothing(o)
+//@   ensures[untracked] !NoSess(event) && !old(has(SMap(o), event.Session)) && event.Type != auparse.AUDIT_LOGIN ==> result == nil && Nothing(o)
+//@   ensures[badpid] !NoSess(event) && !old(has(SMap(o), event.Session)) && event.Type == auparse.AUDIT_LOGIN && !atoiok(event.Process.PID) ==>
+//@   |   result != nil && len(out) == old(len(out)) && kept_old("M!*")
+//@   ensures[open] old(Opens(o, event)) && !old(has(PMap(o), atoival(event.Process.PID))) ==> result == nil && len(out) == old(len(out))
+//@   |   && has(SMap(o), event.Session) && fresh(SMap(o)[event.Session]) && !SMap(o)[event.Session].hasRUL && SMap(o)[event.Session].srcPID == atoival(event.Process.PID)
+//@   |   && len(SMap(o)[event.Session].cached) == 1 && SMap(o)[event.Session].cached[0] == event
+//@   ensures[openbound] old(Opens(o, event)) && old(has(PMap(o), atoival(event.Process.PID))) && result == nil ==> len(out) == old(len(out)) + 1
+//@   |   && Rendered(old(len(out)), old(PMap(o)[atoival(event.Process.PID)].Source), event)
+//@   |   && has(SMap(o), event.Session) && SMap(o)[event.Session].hasRUL && !has(PMap(o), atoival(event.Process.PID))
+//@   ensures[held] !NoSess(event) && old(has(SMap(o), event.Session)) && !old(SMap(o)[event.Session].hasRUL) ==> result == nil && len(out) == old(len(out))
+//@   |   && has(SMap(o), event.Session) && SMap(o)[event.Session] == old(SMap(o)[event.Session])
+//@   |   && len(SMap(o)[event.Session].cached) == old(len(SMap(o)[event.Session].cached)) + 1
+//@   |   && SMap(o)[event.Session].cached[old(len(SMap(o)[event.Session].cached))] == event
+//@   |   && (forall k int :: 0 <= k && k < old(len(SMap(o)[event.Session].cached)) ==> SMap(o)[event.Session].cached[k] == old(SMap(o)[event.Session].cached[k]))
+//@   ensures[emit] !NoSess(event) && old(has(SMap(o), event.Session)) && old(SMap(o)[event.Session].hasRUL) && result == nil ==> len(out) == old(len(out)) + 1
+//@   |   && Rendered(old(len(out)), old(SMap(o)[event.Session].login.Source), event)
+//@   |   && (event.Type == auparse.AUDIT_CRED_DISP <==> !has(SMap(o), event.Session))
+//@   ensures[c01] forall i int :: old(len(out)) <= i && i < len(out) ==> out[i].Type == "UserAction" && out[i].Metadata.AuditID == event.Session
+//@   |   && ite(old(has(SMap(o), event.Session)),
+//@   |          out[i].by == old(SMap(o)[event.Session].login.Source) && old(SMap(o)[event.Session].login.PID) == g_opened[event.Session],
+//@   |          out[i].by == old(PMap(o)[atoival(event.Process.PID)].Source) && old(PMap(o)[atoival(event.Process.PID)].PID) == g_opened[event.Session])
+//@   ensures[err] result != nil ==> wfailed || (event.Type == auparse.AUDIT_LOGIN && !atoiok(event.Process.PID))
+//@   ensures[prefix] outprefix_kept()
+//@   assert_at Write[render] EvIs(e, u.login.Source, event) && g_evsrc[e] == event && g_evby[e] == u.login.Source
